@@ -45,7 +45,8 @@ def gen(ch):
         opt["periodicity"] = p[0]
         if p[1]:
             opt["periodicity_duration"] = p[1]
-    w = ch.pick("window", [None, (("gp", 2), ("gp", T - 2)), (("gp", 1), ("gp", T - 1)), (("gp", 0), ("gp", T - 1)), (("gp", 3), None)])
+    w = ch.pick("window", [None, (("gp", 2), ("gp", T - 2)), (("gp", 1), ("gp", T - 1)), (("gp", 0), ("gp", T - 1)), (("gp", 3), None),
+                            (("before", 1), None)])   # reaches out of the grid: the first coarse interval is only partly covered
     if w:
         s, e = S.resolve_window(g, w)
         if s:
